@@ -62,6 +62,9 @@ Step == /\ verdict = <<"run">> /\ l < Len(Tr.ev)
                j == IF d # OK THEN d
                     ELSE IF IsQuery(e.kind) /\ e.reply # e.fresh THEN "reply-differs-from-fresh-object"
                     ELSE IF e.kind = "set_palette" /\ (e.accepted # ValidPalette(e.arg)) THEN "palette-acceptance"
+                    ELSE IF e.kind = "html" /\ "toks" \in DOMAIN e /\ e.toks # Render(objs[e.obj].seq, objs[e.obj].pal) THEN "html-rendering"
+                    ELSE IF e.kind = "phospho" /\ "sites" \in DOMAIN e /\ e.sites # objs[e.obj].sites THEN "phosphosites-reply"
+                    ELSE IF e.kind = "phospho" /\ "pseq" \in DOMAIN e /\ e.pseq # PhosphoSeq(objs[e.obj].seq, objs[e.obj].sites) THEN "phosphosequence"
                     ELSE OK IN
            IF j = OK THEN /\ l' = l + 1 /\ verdict' = verdict
                           /\ (HiddenDiff(e, Proj', shared'.spGrps) # OK =>
